@@ -26,7 +26,8 @@ def natDigits (n : Nat) : Bytes := natDigitsAux (n + 1) n []
 def fmtInt (v : Int) : Bytes :=
   if v < 0 then 45 :: natDigits v.natAbs else natDigits v.natAbs
 
--- precedence levels of ast/node.go (precTernary = -1 … precPrimary = 8), shifted by one to stay in Nat
+-- precedence levels of ast/node.go (precTernary = -1 … precPrimary = 8), shifted by one to stay in Nat;
+-- `?:` is on the lowest binary level, associates to the RIGHT and takes a ternary as right operand (`leftMin` / `rightMin`)
 def precTernary : Nat := 0
 def precElvis : Nat := 1
 def precOr : Nat := 2
@@ -46,6 +47,20 @@ def binPrec : BinOp → Nat
   | .lt | .le | .gt | .ge => precCompare
   | .add | .sub => precAdd
   | .mul | .div | .mod => precMul
+
+/-- BinaryOpNode.String: the precedence the LEFT operand must have to stand without parentheses — `?:` associates to the
+    right, so another `?:` (or a ternary) on its left is parenthesised -/
+def leftMin (op : BinOp) : Nat :=
+  match op with
+  | .elvis => precElvis + 1
+  | op => binPrec op
+
+/-- … and the RIGHT operand: at equal precedence already parenthesised (left-associative operators); the right operand of
+    `?:` is printed as it is (it extends as far as possible) -/
+def rightMin (op : BinOp) : Nat :=
+  match op with
+  | .elvis => 0
+  | op => binPrec op + 1
 
 def precedenceOf : Expr → Nat
   | .tern .. => precTernary
@@ -101,9 +116,9 @@ mutual
         | .float .. => [45, 40] ++ printExpr a ++ [41]
         | _ => [45] ++ wrapOperand a precUnary (printExpr a)
     | .bin op _ a b =>
-        wrapOperand a (binPrec op) (printExpr a) ++ [32] ++ op.sym ++ [32] ++ wrapOperand b (binPrec op + 1) (printExpr b)
+        wrapOperand a (leftMin op) (printExpr a) ++ [32] ++ op.sym ++ [32] ++ wrapOperand b (rightMin op) (printExpr b)
     | .tern _ c a b =>
-        wrapOperand c precElvis (printExpr c) ++ [32, 63, 32] ++ wrapOperand a precElvis (printExpr a) ++ [32, 58, 32] ++ printExpr b
+        wrapOperand c (precElvis + 1) (printExpr c) ++ [32, 63, 32] ++ wrapOperand a precElvis (printExpr a) ++ [32, 58, 32] ++ printExpr b
   /-- function arguments joined by "," -/
   def printArgs : ExprList → Bool → Bytes
     | .nil, _ => []
